@@ -484,20 +484,6 @@ def write_evidence(cfg, path, tier, seed, t0, obligations, discharged, axioms, c
 
 def replay(pid, path):
     cfg = load_cfg(pid)
-    coqchk_note = None
-    if tier == "thorough" and ok and os.environ.get("VERIF_COQCHK", "1") != "0":
-        mod = "KV." + cfg["props_file"][:-2].replace("/", ".")
-        try:
-            with Lock("coq"):
-                rcc, outc = sh("timeout %d coqchk -silent -o -Q . KV %s" % (int(cfg.get("coqchk_timeout_s", 2400)), mod), cwd=COQ)
-            m = re.search(r'\* Axioms:(.*?)\n\s*\n\* Constants', outc, re.S)
-            coqchk_note = "coqchk -o %s: rc=%d; axioms: %s" % (mod, rcc, " ".join(m.group(1).split()) if m else "?")
-            if rcc not in (0, 124) and not proof_broken:
-                proof_broken = "coqchk rejected %s" % mod
-        except Exception as e:  # noqa
-            coqchk_note = "coqchk not run: %s" % e
-        notes.append(coqchk_note)
-
     okb, bout = build_driver(cfg)
     if not okb:
         print(bout)
